@@ -243,7 +243,11 @@ func (d *Decoder) readTypedList(tag byte) (interface{}, error) {
 
 	aryType, ok := d.typMap[listTyp]
 	if !ok {
-		return nil, newCodecError("readTypedList", "can't find list type %s", listTyp)
+		if d.skipping == 0 {
+			return nil, newCodecError("readTypedList", "can't find list type %s", listTyp)
+		}
+		// inside a value that is being skipped the list is consumed as an untyped one
+		aryType = reflect.TypeOf([]interface{}{})
 	}
 
 	alloc := length
